@@ -27,6 +27,7 @@ type ctxT = context.Context
 type simSock struct {
 	blockWrites bool      // WriteTo blocks until Close or until a deadline ≤ now is set (C08)
 	wdl         time.Time // write deadline
+	failWrites  bool      // WriteTo returns (0, error): e.g. ENOBUFS / EPERM from the kernel
 	closeErr    bool      // Close returns an error
 	closeStuck  bool      // Close returns an error and does not release a pending read (only a deadline does)
 	rdl         time.Time // read deadline
@@ -98,6 +99,11 @@ func (s *simSock) WriteTo(b []byte, addr net.Addr) (int, error) {
 			time.Sleep(50 * time.Microsecond)
 			s.mu.Lock()
 		}
+	}
+	if s.failWrites {
+		s.mu.Unlock()
+
+		return 0, errors.New("simSock: injected write error") //nolint:err113
 	}
 	s.writes++
 	s.mu.Unlock()
